@@ -246,4 +246,10 @@ def layoutOK : List (Tok × List Char) → Bool
   | [] => true
   | (t, g) :: r => gapB .ws g && (!t.isName || headNotName (g ++ renderTG r)) && layoutOK r
 
+/-- what may stand at the very end of the text: nothing, or a `#` comment that is not closed by a line break -/
+def tailOK (tail : List Char) : Bool :=
+  match tail with
+  | [] => true
+  | c :: body => c == '#' && (skipC .com body).isEmpty
+
 end KV.BenchText
